@@ -36,6 +36,8 @@ send times), the time it closed its socket, and its application callbacks:
   close.frame_missing   an accepted close() on a fully open connection put no close frame on the wire
   write_rejected_while_open  write_message raised WebSocketClosedError although neither side had
                         started to close
+  write_failed.wrong_exception  a write_message call, or the future it returned (what an awaiting
+                        application sees), failed with anything but WebSocketClosedError
 A local close() whose arguments cannot be sent (reason > 123 bytes, code outside 0..65535)
 raises on the unchanged tree and leaves the connection fully open; the model treats it as if
 it had not happened (it is not a "local close" for any rule above).
@@ -59,7 +61,9 @@ RULE = ("gen(seed): rig (raw peer as client / raw peer as server / real client+s
         "and timeout (off, 0.25-1 s), pong policy of the raw peer (immediately, delayed around the "
         "timeout, withheld), its reply to Tornado's close frame (echo now, echo around the 5 s closing "
         "timeout, never, FIN), async on_message pacing, and a timed op script drawn from templates "
-        "(peer closes first, local close first, crossing closes, disconnect, ping timeout, mixed) "
+        "(peer closes first, local close first, crossing closes, disconnect, ping timeout, mixed, "
+        "silent disconnect = peer RST/FIN while the frame loop is parked in a busy application and "
+        "the application then writes and awaits the returned future) "
         "with in-flight messages, application writes before/after close, close() calls whose arguments "
         "are rejected (too-long reason, out-of-range code; also as try-bad/retry-good pairs), sleeps "
         "placed at the 5 s and "
@@ -165,8 +169,8 @@ def gen(rng, tier, index):
     mode = rng.choice(["raw_client"] * 4 + ["raw_server"] * 3 + ["real"] * 2)
     raw = mode != "real"
     template = rng.choice(["peer_first", "local_first", "local_first", "crossing", "disconnect",
-                           "ping_timeout", "ping_timeout", "mixed"])
-    if not raw and template == "disconnect":
+                           "ping_timeout", "ping_timeout", "mixed", "silent_disconnect"])
+    if not raw and template in ("disconnect", "silent_disconnect"):
         template = "crossing"
     ping = None
     pong = []
@@ -215,6 +219,14 @@ def gen(rng, tier, index):
             ops.append({"op": "t_close", "dt": rng.choice([0, 1, -1]), "code": c, "reason": r})
         ops.append({"op": rng.choice(["p_fin", "p_half", "p_rst"]), "dt": rng.choice([0, 0, 1, -1, 50])})
         ops += _filler(rng, mode, rng.randint(0, 2))
+    elif template == "silent_disconnect":
+        # the peer goes away while Tornado's frame loop is parked in a busy application, so the
+        # library has not noticed yet when the application writes (and awaits) its answers
+        for _ in range(1 if mode == "raw_client" else 3):
+            ops.append({"op": "p_msg", "dt": 0, "t": rng.choice([1, 2]), "n": rng.choice([0, 5, 126])})
+        ops.append({"op": rng.choice(["p_rst", "p_rst", "p_fin"]), "dt": rng.choice([1, 2, 5])})
+        for _ in range(rng.choice([1, 2, 2, 3])):
+            ops.append({"op": "t_write", "dt": rng.choice([0, 0, 1, 2]), "n": rng.choice([0, 5, 300])})
     elif template == "ping_timeout":
         iv, to = ping
         eff = to if to is not None else iv
@@ -266,6 +278,9 @@ def gen(rng, tier, index):
              "client_cb": rng.random() < 0.4, "deflate": rng.random() < 0.25,
              "window": rng.choice([300, 65536, 65536, 65536]), "key": rng.getrandbits(8),
              "template": template}
+    if template == "silent_disconnect":
+        knobs["pattern"] = [rng.choice([100, 300, 1000]) for _ in range(rng.randint(1, 3))]
+        knobs["client_cb"] = False
     return {"property": ID, "version": 1, "knobs": knobs, "ops": ops, "tapes": tapes}
 
 
@@ -857,6 +872,22 @@ def run(scn, full_log=False):
                                                      f"although neither side had started to close",
                         "after_rejected_close" if any(tr <= tw for tr, _, _ in side.rejected_closes)
                         else "")
+            # R12 a write either succeeds or fails with WebSocketClosedError - from the call or
+            # from the future it returned (what an application that awaits it sees)
+            for (tw, after_local, after_notify, outcome) in side.writes:
+                if outcome and outcome.split(":")[0] in ("raised", "future") \
+                        and not outcome.endswith(":WebSocketClosedError") and outcome != "WebSocketClosedError":
+                    unnoticed = (peer_end is not None and peer_end <= tw and not after_notify
+                                 and (t_c is None or t_c >= tw))
+                    bad("write_failed.wrong_exception",
+                        f"write_message at {tw} failed with {outcome} instead of WebSocketClosedError "
+                        f"(peer disconnected at {peer_end}, socket closed at {t_c}, "
+                        f"after close()={after_local}, after notification={after_notify})",
+                        outcome.replace(":", "_") + ("/peer_gone_unnoticed" if unnoticed else ""))
+                elif outcome == "future:WebSocketClosedError":
+                    probe("awaited_write_failed_with_WebSocketClosedError")
+                    if peer_end is not None and peer_end <= tw and not after_notify and not after_local:
+                        probe("write_after_unnoticed_peer_disconnect")
             # R7 writes after close
             for (tw, after_local, after_notify, outcome) in side.writes:
                 if after_local or after_notify:
